@@ -164,7 +164,17 @@ func init() {
 			}
 			return fr.i.tc.mkBool(fr.i.valueEqualTerm(a.v, b.v))
 		},
-		"verifTier": func(fr *frame, args []value) value { return fr.i.run.opts.Tier },
+		"verifMapOrderSymbolic": func(fr *frame, args []value) value {
+			fr.i.symMapOrder = args[0].(bool)
+			return nil
+		},
+		"verifClockSymbolic": func(fr *frame, args []value) value {
+			fr.i.symClock = args[0].(bool)
+			return nil
+		},
+		"verifTries":   func(fr *frame, args []value) value { return 1 },
+		"verifSleepMs": func(fr *frame, args []value) value { return nil },
+		"verifTier":    func(fr *frame, args []value) value { return fr.i.run.opts.Tier },
 		"verifAssertKnown": func(fr *frame, args []value) value {
 			// verifAssertKnown(c, label, kfID, inClass): like verifAssert, but if kfID is a
 			// listed known finding, violations inside the class predicate are reported as
